@@ -860,6 +860,8 @@ def signature(case, out, why):
     if t[0] == "fe":
         g = parse_fe_case(case)
         return "fe:%s:%s" % (g["kind"], (why or "")[:40])
+    if t[0] in ("trace3", "trpt"):
+        return "%s:%s" % (t[0], (why or "")[:50])
     if t[0] == "vox":
         if t[1] == "burgers" and float(t[7]) == 0 and float(t[9]) == 0 and float(t[8]) != 0 and why and "voxel assembler" in why:
             # F6: the voxel Burgers host kernel gathers the convection dofs only if beta != 0 or streamline diffusion is
@@ -1739,6 +1741,183 @@ def oracle_vox(case, out):
         return "unparsable implementation output (%s): %s" % (repr(e), out[:200])
 
 
+
+# ---------------------------------------------------------------------------------------------
+# trace assembler in 3-D: facets stored in permuted vertex orders
+# ---------------------------------------------------------------------------------------------
+
+def p1_coefs3(rng):
+    return [rand_q(rng, small=True) or F(1)] + [F(rng.choice([1, 2, -1, 3, -2])) for _ in range(3)] + [F(0)] * 6
+
+
+def gen_trace3_case(rng, tier):
+    shape = rng.choice(["hexa", "hexa", "tetra"])
+    if shape == "hexa":
+        level = rng.choice([0, 0, 1])
+        nf = 6 if level == 0 else 36
+        moves = []
+        if level == 0 and rng.random() < 0.7:
+            # planar non-parallelogram top face (z = 1): move top vertices inside the plane
+            base = {4: (F(0), F(0)), 5: (F(1), F(0)), 6: (F(0), F(1)), 7: (F(1), F(1))}
+            while True:
+                moves = [(v, [F(rng.randint(-2, 3), 4), F(rng.randint(-2, 3), 4), F(0)])
+                         for v in rng.sample([4, 5, 6, 7], rng.randint(1, 2))]
+                pos = dict(base)
+                for v, d in moves:
+                    pos[v] = (pos[v][0] + d[0], pos[v][1] + d[1])
+                poly = [pos[4], pos[5], pos[7], pos[6]]
+                crs = []
+                for i in range(4):
+                    a, b, c2 = poly[i], poly[(i + 1) % 4], poly[(i + 2) % 4]
+                    crs.append((b[0] - a[0]) * (c2[1] - b[1]) - (b[1] - a[1]) * (c2[0] - b[0]))
+                if all(x > 0 for x in crs):     # strictly convex, positively oriented top face
+                    break
+            sel = [1] + ([0] if rng.random() < 0.3 else [])
+        else:
+            sel = [rng.randrange(nf) for _ in range(rng.randint(1, 3))]
+        rule = rng.choice(["simpson", "newton-cotes-closed:3", "newton-cotes-closed:4"])
+        perms = [rng.randrange(8) for _ in range(rng.randint(1, 6))]
+    else:
+        level = rng.choice([0, 0, 1]) if tier != "quick" else rng.choice([0, 0, 0, 1])
+        moves = []
+        sel = [rng.randrange(1000) for _ in range(rng.randint(1, 2))]
+        rule = "lauffer-degree-2"
+        perms = [rng.randrange(6) for _ in range(rng.randint(1, 6))]
+    mv = " ".join("%d %s" % (v, " ".join(fs(x) for x in d)) for v, d in moves)
+    line = "trace3 %s %d %d %s %s %s %s %s %s" % (shape, level, len(moves), mv, rule, fmt_list(perms), fmt_list(sel),
+                                               fmt_qlist(p1_coefs3(rng)), fmt_qlist(p1_coefs3(rng)))
+    return " ".join(line.split())
+
+
+def poly3_eval(coef, x):
+    r = coef[0] + sum(coef[1 + i] * x[i] for i in range(3))
+    k = 4
+    for i in range(3):
+        for j in range(i, 3):
+            r += coef[k] * x[i] * x[j]
+            k += 1
+    return r
+
+
+def planar_facet_integral(verts, f):
+    """integral of the quadratic f over a facet lying in an axis-parallel plane; None if it does not"""
+    const = [d for d in range(3) if all(v[d] == verts[0][d] for v in verts)]
+    if not const:
+        return None
+    keep = [d for d in range(3) if d != const[0]]
+    tris = [verts] if len(verts) == 3 else [[verts[0], verts[1], verts[3]], [verts[0], verts[3], verts[2]]]
+    tot = F(0)
+    for t in tris:
+        a = [[v[d] for d in keep] for v in t]
+        area = abs((a[1][0] - a[0][0]) * (a[2][1] - a[0][1]) - (a[1][1] - a[0][1]) * (a[2][0] - a[0][0])) / 2
+        mids = [[(t[i][d] + t[(i + 1) % 3][d]) / 2 for d in range(3)] for i in range(3)]
+        tot += area / 3 * sum(f(m) for m in mids)      # edge-midpoint rule: exact for degree 2
+    return tot
+
+
+def oracle_trace3(case, out):
+    try:
+        if is_abnormal(out):
+            return "3-D trace assembly ended with " + out
+        c = Tk(case)
+        c.tok()
+        shape, level = c.tok(), c.nat()
+        nm = c.nat()
+        for _ in range(nm):
+            c.nat(), c.q(), c.q(), c.q()
+        rule = c.tok()
+        c.lst(), c.lst()
+        cu, cv = c.qlst(), c.qlst()
+        o = Tk(out)
+        o.expect("T3")
+        nsel = o.nat()
+        facets = []
+        for _ in range(nsel):
+            nvf = o.nat()
+            vs = [[o.q() for _ in range(3)] for _ in range(nvf)]
+            facets.append((vs, o.nat()))
+        rows, cols, rp, ci, vals = read_matrix(o)
+        o.expect("F")
+        fvec = o.qlst()
+        o.expect("U")
+        u = o.qlst()
+        o.expect("V")
+        v = o.qlst()
+        o.expect("J")
+        o.nat()
+        nz = o.qlst()
+        if nz:
+            return "jump operator of the continuous Lagrange-1 space on the inner facets has %d non-zero entries (e.g. %s)" % (
+                len(nz), nz[0])
+        # distinct facets (the assembler works with a mask)
+        seen, dist = set(), []
+        for vs, deg in facets:
+            key = tuple(sorted(tuple(x) for x in vs))
+            if key not in seen:
+                seen.add(key)
+                dist.append((vs, deg))
+        exp = F(0)
+        for vs, deg in dist:
+            val = planar_facet_integral(vs, lambda x: poly3_eval(cu, x) * poly3_eval(cv, x))
+            if val is None:
+                return None     # a facet in a skew plane: its area is irrational, no exact claim
+            exp += deg * val
+        d = dense_of(rows, rp, ci, vals)
+        got = sum(u[i] * x * v[j] for (i, j), x in d.items())
+        if got != exp:
+            return "facet mass matrix: u^T M v = %s, exact integral of u v over the selected facets is %s" % (got, exp)
+        got = sum(x * y for x, y in zip(u, fvec))
+        if got != exp:
+            return "facet functional: u^T b = %s, exact integral of u v over the selected facets is %s" % (got, exp)
+        return None
+    except (IndexError, ValueError, AssertionError, KeyError) as e:
+        return "unparsable implementation output (%s): %s" % (repr(e), out[:200])
+
+
+def trpt_cases():
+    pts = ["1/3 1/5", "-1/2 3/4", "0/1 1/1"]
+    cases = []
+    for shape, nfc, nsy in (("hexa", 6, 8), ("tetra", 4, 6)):
+        for lf in range(nfc):
+            for p_ in range(nsy):
+                for k, pt_ in enumerate(pts):
+                    if shape == "tetra" and k == 1:
+                        pt_ = "1/2 1/4"
+                    cases.append("trpt %s %d %d %s" % (shape, lf, p_, pt_))
+    return cases
+
+
+def oracle_trpt(case, out):
+    try:
+        if is_abnormal(out):
+            return "facet point map ended with " + out
+        t = case.split()
+        shape, lf = t[1], int(t[2])
+        o = Tk(out)
+        o.expect("TP")
+        code = o.tok()
+        x = [o.q() for _ in range(3)]
+        if code == "-1":
+            return "no orientation code for an admissible vertex order"
+        if shape == "hexa":
+            if x[[2, 2, 1, 1, 0, 0][lf]] != [-1, 1, -1, 1, -1, 1][lf]:
+                return "mapped facet point %s is not on local face %d of the reference hexahedron" % (x, lf)
+        else:
+            bary = [1 - sum(x)] + x
+            if bary[lf] != 0:
+                return "mapped facet point %s is not on local face %d of the reference tetrahedron" % (x, lf)
+        return None
+    except (IndexError, ValueError, AssertionError, KeyError) as e:
+        return "unparsable implementation output (%s): %s" % (repr(e), out[:200])
+
+
+# one hexahedron with a planar non-parallelogram top face (z = 1: (0,0) (1,0) (0,2) (1,3/2)) in each of its 8 vertex orders
+CORPUS_TRACE3 = ["trace3 hexa 0 2 6 0/1 1/1 0/1 7 0/1 1/2 0/1 simpson 2 0 %d 1 1 10 1/1 1/1 2/1 -1/1 0/1 0/1 0/1 0/1 0/1 0/1 "
+                 "10 2/1 -1/1 1/1 3/1 0/1 0/1 0/1 0/1 0/1 0/1" % p_ for p_ in range(8)] + \
+                ["trace3 tetra 0 0 lauffer-degree-2 4 1 2 5 3 2 0 1 10 1/1 1/1 2/1 -1/1 0/1 0/1 0/1 0/1 0/1 0/1 "
+                 "10 2/1 -1/1 1/1 3/1 0/1 0/1 0/1 0/1 0/1 0/1"]
+
+
 CORPUS_SYNTH = [
     "asmb 1 2 2 2 2 2 2 0 1 1 1 2 0 1 1 1 2 0 1 1/1 16 1/1 0/1 0/1 1/1 1/1 2/1 0/1 1/1 1/1 1/1 0/1 1/1 1/1 3/1 0/1 1/1 2/1 4 1/1 5/1 0/1 1/1",
     # F3 (open, c16-edge:F3): no cell has both a test and a trial dof -> entry-free matrix -> null row_ptr dereferenced
@@ -1775,7 +1954,7 @@ def main(argv):
                                      extra_srcs=[os.path.join(hdir, "fe_%s.cpp" % s) for s in ("line", "quad", "tria", "hexa", "tetra")] +
                                      [os.path.join(hdir, "bg_%s.cpp" % s) for s in ("quad", "tria", "hexa")] +
                                      [os.path.join(hdir, "ops_%s.cpp" % s) for s in ("quad", "tria", "hexa")] +
-                                     [os.path.join(hdir, "trace_quad.cpp")])
+                                     [os.path.join(hdir, "trace_quad.cpp"), os.path.join(hdir, "trace3d.cpp")])
     if binary is None:
         v = [{"property": PROP, "kind": "harness-build-failure", "detail": err, "failing_input": None,
               "broken": "harness c16 does not compile against the current tree"}]
@@ -1783,23 +1962,26 @@ def main(argv):
     quick = args.tier == "quick"
     if args.replay:
         rc = json.load(open(args.replay))["input"]
-        synth = [rc] if rc.split()[0] not in ("fe", "feasm", "bg", "bgsd", "ops", "trace", "hist", "histj", "flocal", "vox") else []
+        synth = [rc] if rc.split()[0] not in ("fe", "feasm", "bg", "bgsd", "ops", "trace", "trace3", "trpt", "hist", "histj", "flocal", "vox") else []
         vox = [rc] if rc.split()[0] == "vox" else []
         hist = [rc] if rc.split()[0] in ("hist", "histj") else []
         flocal = [rc] if rc.split()[0] == "flocal" else []
-        ops = [rc] if rc.split()[0] in ("ops", "trace") else []
+        ops = [rc] if rc.split()[0] in ("ops", "trace", "trace3") else []
+        trpt = [rc] if rc.split()[0] == "trpt" else []
         fe = [rc] if rc.split()[0] == "fe" else []
         feasm_extra = [rc] if rc.split()[0] == "feasm" else []
         bg = [rc] if rc.split()[0] == "bg" else []
         bgsd_extra = [rc] if rc.split()[0] == "bgsd" else []
     else:
-        bg = CORPUS_BG + [gen_bg_case(rng, args.tier) for _ in range(400 if quick else 4000)]
+        bg = CORPUS_BG + [gen_bg_case(rng, args.tier) for _ in range(300 if quick else 4000)]
         bgsd_extra = []
-        synth = CORPUS_SYNTH + gen_synth(rng, 6000 if quick else 60000)
-        fe = CORPUS_FE + [gen_fe_case(rng, args.tier) for _ in range(500 if quick else 4000)]
+        synth = CORPUS_SYNTH + gen_synth(rng, 4000 if quick else 60000)
+        fe = CORPUS_FE + [gen_fe_case(rng, args.tier) for _ in range(350 if quick else 4000)]
         feasm_extra = []
         ops = CORPUS_OPS + [gen_ops_case(rng, args.tier, k) for k in range(50 if quick else 400)]
         ops += CORPUS_TRACE + [gen_trace_case(rng) for _ in range(60 if quick else 600)]
+        ops += CORPUS_TRACE3 + [gen_trace3_case(rng, args.tier) for _ in range(50 if quick else 700)]
+        trpt = trpt_cases()
         hist = None
         flocal = None
         vox = ["vox poisson 2 1 auto-degree:5", "vox defo 2 1 auto-degree:5 0.78",
@@ -1852,7 +2034,7 @@ def main(argv):
             hist = [g_[0] + " REC M1 0 0 0" for g_ in gens]
     if flocal is None:
         flocal = []
-        cfgs = [gen_flocal_cfg(rng) for _ in range(100 if quick else 1000)]
+        cfgs = [gen_flocal_cfg(rng) for _ in range(70 if quick else 1000)]
         try:
             geo_outs = vlib.run_lines([binary], ["fe %s %s" % (g_["shape"], fe_cfg_tokens(g_)) for g_ in cfgs], env=env)
             for g_, out in zip(cfgs, geo_outs):
@@ -1893,10 +2075,14 @@ def main(argv):
                     nontrivial=lambda c: parse_bg_case(c)["level"] >= 1 or parse_bg_case(c)["fam"] == "s",
                     describe=describe_bg, signature=signature, env=env),
         vlib.Stream("operators", ops, [binary], None,
-                    oracle=lambda c, o: oracle_trace(c, o) if c.startswith("trace") else oracle_ops(c, o),
+                    oracle=lambda c, o: oracle_trace3(c, o) if c.startswith("trace3") else
+                    (oracle_trace(c, o) if c.startswith("trace") else oracle_ops(c, o)),
                     nontrivial=lambda c: True,
-                    describe=lambda c: ["op:trace"] if c.startswith("trace") else describe_ops(c),
+                    describe=lambda c: (["op:trace3", "shape:" + c.split()[1], "moved" if c.split()[3] != "0" else "unmoved"]
+                                        if c.startswith("trace3") else ["op:trace"] if c.startswith("trace") else describe_ops(c)),
                     signature=signature, env=env),
+        vlib.Stream("trace-point", trpt, [binary], vlib.driver_cmd(PROP), oracle=oracle_trpt, nontrivial=lambda c: True,
+                    describe=lambda c: ["shape:" + c.split()[1], "symmetry:" + c.split()[3]], signature=signature, env=env),
         vlib.Stream("burgers-model", bgsd, [binary], vlib.driver_cmd(PROP), oracle=oracle_bgsd,
                     nontrivial=lambda c: True, describe=lambda c: ["shape:" + c.split()[1]], signature=signature, env=env),
     ]
@@ -1913,7 +2099,10 @@ def main(argv):
             "operators: every class of common_operators.hpp / common_functionals.hpp per case (table ops_table: class -> "
             "documented form), u^T A v against the exact integral with polynomials not vanishing on the boundary for all "
             "(ir,ic), every block of every blocked operator entry by entry against the scalar operators, classic vs job; "
-            "trace assembler facet selection incl. clear(). every fe/burgers/operators/trace case runs a discarded "
+            "trace assembler facet selection incl. clear(); trace assembler in 3-D (hexa incl. planar non-parallelogram "
+            "faces, tetra levels 0-1) with every facet stored in an independently chosen admissible vertex order: facet "
+            "mass matrix / facet functional against exact polygon integrals, jump operator of the continuous space = 0; "
+            "trace-point: orientation code and mapped facet point for all faces x all symmetries vs the model. every fe/burgers/operators/trace case runs a discarded "
             "warm-up request of the same template instantiations (other rule, other coefficients) before the judged one; "
             "history: requests [warm-up, real, warm-up, real, real] in one process, classic and job route, all five "
             "results against the model's assembleSeq, the three real ones equal. local: the local matrices / vectors the "
